@@ -13,8 +13,9 @@ def _c03(defs, quick_args=(), thorough_args=()):
 
 # build options that only touch the JSON parser: the MessagePack part of the product is reduced to the star in quick
 _JSON_ONLY_Q = ["--corpus-full=12", "--mp-full=1", "--mp-star=2", "--corpus-full-mp=0"]
-# quick: the non-default configurations take the full product on corpus items <= 12 bytes (default configuration: <= 24)
-_REDUCED_Q = ["--corpus-full=12"]
+# quick: the non-default configurations take the full product on corpus items <= 12 bytes (default configuration: <= 24) and
+# on MessagePack strings of length <= 1 (default: <= 2; the 2-byte strings get the star) — thorough has no such reduction
+_REDUCED_Q = ["--corpus-full=12", "--mp-full=1", "--mp-star=2"]
 _C03_SMALL = _c03(["ARDUINOJSON_SLOT_ID_SIZE=1", "ARDUINOJSON_POOL_CAPACITY=4"], _REDUCED_Q, ["--budget=170"])
 _C03_LEN1 = _c03(["ARDUINOJSON_STRING_LENGTH_SIZE=1"], _REDUCED_Q, ["--budget=170"])
 _C03_DIALECT = _c03(["ARDUINOJSON_ENABLE_COMMENTS=1", "ARDUINOJSON_ENABLE_NAN=1", "ARDUINOJSON_ENABLE_INFINITY=1"], _JSON_ONLY_Q, ["--budget=170"])
